@@ -143,6 +143,7 @@ def deprecation_vectors(pid, tier, rng, tmp):
         for unit in ("s", "ns"):
             v = dict(p)
             v["unit"] = unit
+            v["tick"] = (len(seen) + (unit == "ns")) % 3       # 0: frozen clock; 1, 2: the clock moves between readings
             vecs.append({"kind": "c16", "id": "c16-%06d-%s" % (len(seen), unit), "in": v})
     cap = 80000 if thorough else 12000
     if len(vecs) > cap:
@@ -163,7 +164,7 @@ def deprecation_vectors(pid, tier, rng, tmp):
         reads.sort()
         vecs.append({"kind": "c16", "id": "c16-rand-%05d" % j,
                      "in": {"epoch": epoch, "valid": valid, "pref": pref, "rl": rl, "deprecated": rng.random() < 0.85,
-                            "reads": reads, "unit": rng.choice(["s", "ns"])}})
+                            "reads": reads, "unit": rng.choice(["s", "ns"]), "tick": rng.choice([0, 0, 1, 1, 2, 7])}})
     return [mc], vecs
 
 
